@@ -88,3 +88,39 @@ def rebinding_rule(ctx, run, rule, prefixes, minimum):
     run.require(rule, minimum)
     if n < minimum:
         raise AnalysisError(f"{rule}: only {n} re-binding statements found in {prefixes}")
+
+
+RENAMING_IMPORTS = {("math", "pi", "kPI"): "numeric constant"}
+
+
+def exports_rule(ctx, run, rule, prefixes):
+    """the names a user imports are the objects of that name: in the given packages no `from x import A as B` renames a class or function
+    (confirmed exception table RENAMING_IMPORTS) and no module-level `B = A` aliases one; every `from .x import A` in an __init__ resolves to a
+    definition called A (a re-export that resolves to another definition gives the user a different criterion / module / instrument)"""
+    import ast
+    from .report import Finding
+    prog = ctx.prog
+    n = 0
+    for mod in prog.modules.values():
+        if not mod.name.startswith(tuple(prefixes)):
+            continue
+        bad = []
+        for st in mod.tree.body:
+            if isinstance(st, ast.ImportFrom):
+                for a in st.names:
+                    n += 1
+                    if a.asname and a.asname != a.name and (st.module or "", a.name, a.asname) not in RENAMING_IMPORTS:
+                        bad.append((st.lineno, f"from {st.module} import {a.name} as {a.asname}"))
+                    if mod.path.name == "__init__.py" and (st.level or 0) > 0 and a.name != "*":
+                        q = prog.resolve_name(mod.name, a.asname or a.name)
+                        if q is not None and (q in prog.classes or q in prog.functions) and q.rsplit(".", 1)[-1] != a.name:
+                            bad.append((st.lineno, f"{a.name} resolves to {q}"))
+            if isinstance(st, ast.Assign) and len(st.targets) == 1 and isinstance(st.targets[0], ast.Name) and isinstance(st.value, (ast.Name, ast.Attribute)):
+                q = prog.resolve_name(mod.name, ast.unparse(st.value))
+                if q is not None and (q in prog.classes or q in prog.functions):
+                    bad.append((st.lineno, f"{st.targets[0].id} = {ast.unparse(st.value)} aliases {q}"))
+        run.oblige(rule, f"{mod.name}: imported and exported names are the definitions of that name", not bad, "; ".join(b for _, b in bad))
+        for ln, b in bad:
+            run.fail(Finding(rule, mod.name, b, "a public name is bound to a definition of another name: users importing it get a different object than documented", file=str(mod.path), line=ln))
+    if n < 20:
+        raise AnalysisError(f"{rule}: only {n} imports found in {prefixes}")
